@@ -620,4 +620,13 @@ def extWrite (written original : Quals) : Quals := Q.update (extPlaceholders.fol
 /-- the other order — originals first, placeholders removed afterwards — for comparison -/
 def extWriteRestoreFirst (written original : Quals) : Quals := extPlaceholders.foldl Q.erase (Q.update written original)
 
+/-- the keys `Domain.from_biopython` / `AntismashFeature.from_biopython` consume from an external motif's qualifiers on
+    reading (`locus_tag` is not among them: the placeholder tag is set already) — and, because `ExternalCDSMotif` holds
+    the very dictionary they consume, from its `original_qualifiers` -/
+def extConsumed : List String :=
+  ["protein_start", "protein_end", "aSDomain", "ASF", "domain_id", "database", "detection", "label", "translation", "evalue", "score"]
+
+/-- `original_qualifiers` of the motif read from a feature with qualifiers `q` -/
+def extOriginal (q : Quals) : Quals := extConsumed.foldl Q.erase q
+
 end ASV.Serial
